@@ -29,6 +29,14 @@ func (c *Ctx) checkAtCall(st *State, x *ast.CallExpr, fn *types.Func) {
 			keys = append(keys, pkgName+"."+rn+"."+fn.Name())
 		}
 	}
+	c.checkAtCallKeys(st, x, keys)
+}
+
+// checkAtCallKeys: the same for a call known only by name (also used for built-ins such as delete).
+func (c *Ctx) checkAtCallKeys(st *State, x *ast.CallExpr, keys []string) {
+	if c.fc == nil || len(c.fc.AtCall) == 0 || c.inlineDepth > c.closureDepth {
+		return
+	}
 	for _, k := range keys {
 		for _, cl := range c.fc.AtCall[k] {
 			env := c.newEnv(st, c.entry)
